@@ -24,6 +24,25 @@ def truth_of(vals, neg):
     return (vals != [0]) if vals is not None else (0 in (neg or []))
 
 
+MEMO_T = r'HashMap<u32, std::collections::HashMap<time::Date'
+DAYMAP_T = r'HashMap<time::Date, '
+
+
+def rate_atom(fn, c):
+    """atoms of the rate look-up: memo (year memoised in this run), date (a day map contains the requested date), fresh (year
+    downloaded in this run)"""
+    a0 = fn.ty.get(c.arg_local(0), '') if c.args else ''
+    if c.short == 'contains_key' and re.search(MEMO_T, a0):
+        return ('memo', 'bool')
+    if c.short == 'get' and re.search(MEMO_T, a0):
+        return ('memo', 'option')
+    if c.short == 'contains_key' and re.search(DAYMAP_T, a0):
+        return ('date', 'bool')
+    if c.short == 'contains' and re.search(r'HashSet<u32', a0):
+        return ('fresh', 'bool')
+    return None
+
+
 def alias_fn(fn):
     return '@rate_lookup' if re.search(r'rate_loader::', fn.name) else fn.name
 
@@ -60,30 +79,16 @@ def run(prog, rep, tier='quick', config='default'):
         # is this call confined to "year not memoised yet" / "year not downloaded in this run"?  Guard edges: the false edge of
         # contains_key(memo, year), the None edge of memo.get(year), the false edge of fresh_years.contains(year). Every path from
         # the function entry to the call must use one of them (edge cut), so after a download (memoised and fresh) it is unreachable.
-        g_edges = set()
-        keycall = None
         MEMO_RX = r'HashMap<u32, std::collections::HashMap<time::Date'
-        for i, b in c.fn.blocks.items():
-            t = b['term']
-            if not t or t['t'] != 'switch':
-                continue
-            d = mir.provenance(c.fn, t['discr'], follow_all_call_args=True)
-            e = c.fn.bool_switch_edges(i)
-            flipped = (len({id(st) for op, st in list(d.binops) + list(d.unops) if op == 'Not'}) % 2 == 1)
-            for x in d.calls:
-                a0ty = c.fn.ty.get(x.arg_local(0), '')
-                if x.short == 'contains_key' and re.search(MEMO_RX, a0ty) and e is not None:
-                    g_edges.add((i, e[0] if flipped else e[1]))
-                    keycall = keycall or x
-                elif x.short == 'contains' and re.search(r'HashSet<u32', a0ty) and e is not None:
-                    g_edges.add((i, e[0] if flipped else e[1]))
-                elif x.short == 'get' and re.search(MEMO_RX, a0ty) and c.fn._is_discr_of(t['discr'], x.dst['l']):
-                    for v, tg in t['targets']:
-                        if v == 0:
-                            g_edges.add((i, tg))
-                            keycall = keycall or x
-        if g_edges and keycall is not None and c.bb not in c.fn.reachable_avoiding_edges(0, g_edges):
-            guard_site = (c, keycall)
+        keycall = None
+        for x in c.fn.calls:
+            if x.short in ('contains_key', 'get') and x.args and re.search(MEMO_RX, c.fn.ty.get(x.arg_local(0), '')):
+                keycall = keycall or x
+        if keycall is not None:
+            paths = mir.symbolic_paths(c.fn, 0, c.bb, lambda x, f=c.fn: rate_atom(f, x))
+            rep.extra['download_guard_paths'] = None if paths is None else sorted({str(sorted(p.items())) for p in paths})
+            if paths and all(p.get('memo') is False or p.get('fresh') is False for p in paths):
+                guard_site = (c, keycall)
         if guard_site:
             break
         cur = prog.owner_of(c.fn)
@@ -143,21 +148,11 @@ def run(prog, rep, tier='quick', config='default'):
         if not answers:
             rep.violation('R13d', 'anchor-lost:memo-answer', fn=fn.name, detail='anchor lost: no look-up of the requested date in the memoised year map')
         else:
-            accept = set()
-            for i, b in fn.blocks.items():
-                e = fn.bool_switch_edges(i)
-                if e is None:
-                    continue
-                d = mir.provenance(fn, b['term']['discr'], follow_all_call_args=True)
-                flipped = (len({id(st) for op, st in list(d.binops) + list(d.unops) if op == 'Not'}) % 2 == 1)
-                true_t, false_t = (e[1], e[0]) if flipped else e
-                for x in d.calls:
-                    if x.short == 'contains_key' and re.search(DAYMAP, fn.ty.get(x.arg_local(0), '')) and not re.search(MEMO, fn.ty.get(x.arg_local(0), '')):
-                        accept.add((i, true_t))
-                    if x.short == 'contains' and re.search(r'HashSet<u32', fn.ty.get(x.arg_local(0), '')):
-                        accept.add((i, true_t))
-            removed = set(accept) | {(c.bb, y) for y in fn.succ.get(c.bb, [])}
-            reach = fn.reachable_avoiding_edges(0, removed)
+            reach = set()
+            for x in answers:
+                paths = mir.symbolic_paths(fn, 0, x.bb, lambda y, f=fn: rate_atom(f, y), avoid={c.bb})
+                if paths is None or any(not (p.get('date') is True or p.get('fresh') is True) for p in paths):
+                    reach.add(x.bb)
             for n, x in enumerate(answers, 1):
                 k = '%s|memo-answer#%d|covers-date-or-downloaded-this-run' % (alias_fn(fn), n)
                 if x.bb in reach:
